@@ -6,13 +6,25 @@ import J5V.Walker.Facts
 import J5V.Walker.Walk
 import J5V.Walker.Stub
 import J5V.Walker.Dump
+import J5V.Walker.Print
+import J5V.Walker.PrintErase
+import J5V.Compile.Sexp
 /-! Line-protocol driver for the schema-driven BCL walker model (core only); protocol:
 `harness/PROTOCOL-walker.md`.
 
 `walk HEX(filename) HEX(source)` → `perr` | `ok DUMP` | `err POS` | `panic` | `bad-op`:
 decode the source (`decodeRunes`), `parseFile cls runes true` (`.errors` → `perr`, `.panic` →
 `panic`), then `walkSchema j5Env f.body (stub j5Env filename)`.
-`WALKER_DEBUG=1` appends the model's error site / panic reason to `err` / `panic` lines. -/
+`WALKER_DEBUG=1` appends the model's error site / panic reason to `err` / `panic` lines.
+
+`print HEX(filename) HEX(source) SEXP` (PROTOCOL-walker.md §8; SEXP = one `(j5s …)` file of
+PROTOCOL-compile.md §2 with its `(decl …)`) → `unsupported` | `tree=<t> walk=<w> msg=<m> same=<s>`:
+`t` = the model's parse of the source, positions erased, IS `toBcl ast` (compared through the
+canonical rendering of `Driver/Bcl.lean`, copied below); `w` = the protocol result of
+`walkSchema j5Env (toBcl ast) (stub j5Env filename)` with `:` for the space; `m` = `dump j5Env (toMsg
+filename ast)`; `s` = the walk is `ok` and its tree EQUALS `toMsg filename ast` (`nodeBeq`: the reflection
+layer's touched flags included; this implies equal dumps, and both dumps are on the line). With
+`WALKER_PRINT_DUMPONLY=1` only the dumps are compared (development). -/
 open J5V.Go J5V.Bcl J5V.Walker
 
 def pt (p : Pos) : String := toString p.line ++ ":" ++ toString p.col
@@ -31,13 +43,103 @@ def opWalk (cls : Cls) (debug : Bool) (filename source : List Nat) : String :=
     | .err e => "err " ++ posStr e.pos ++ (if debug then " " ++ e.what else "")
     | .panic w => if debug then "panic " ++ w else "panic"
 
-def step (cls : Cls) (debug : Bool) (line : String) : String :=
-  match line.trimAscii.toString.splitOn " " with
-  | ["walk", hn, hs] =>
-    match fromHex hn, fromHex hs with
-    | some name, some src => opWalk cls debug name src
-    | _, _ => "bad-op"
+/-! ## op `print`: canonical rendering of a tree (as `Driver/Bcl.lean`, with positions) -/
+
+def tHexR (rs : List Rune) : String := toHexW (encodeRunes rs)
+def tPos (s e : Pos) : String := pt s ++ "-" ++ pt e
+def tSpan (s : Span) : String := tPos s.start s.end_
+def tTok (t : Token) : String := t.ty.name ++ "@" ++ tPos t.start t.end_ ++ "=" ++ tHexR t.lit
+def tJoin (l : List String) : String := ",".intercalate l
+def tIdent (i : Ident) : String := "i@" ++ tSpan i.span ++ "=" ++ tHexR i.value ++ "~" ++ tTok i.token
+def tRef (r : Reference) : String := "r@" ++ tSpan r.span ++ "[" ++ tJoin (r.idents.map tIdent) ++ "]"
+
+mutual
+partial def tValue : Value → String
+  | .scalar tok s => "v@" ++ tSpan s ++ "~" ++ tTok tok
+  | .array vs s => "a@" ++ tSpan s ++ "[" ++ tJoin (vs.map tValue) ++ "]"
+end
+
+def tTag (t : TagValue) : String :=
+  let mark := match t.mark with
+    | .none => "n~" ++ tTok t.markToken
+    | .bang => "!~" ++ tTok t.markToken
+    | .question => "?~" ++ tTok t.markToken
+  let target := (match t.reference with | some r => tRef r | none => "nil") ++ "/" ++
+    (match t.value with | some v => tValue v | none => "nil")
+  "t@" ++ tSpan t.span ++ "{" ++ mark ++ ";" ++ target ++ "}"
+
+def tDescBody (d : Description) : String := "{" ++ tHexR d.value ++ ";[" ++ tJoin (d.tokens.map tTok) ++ "]}"
+
+def tCmt : Option CommentNode → String
+  | none => "-"
+  | some c => "c@" ++ tSpan c.span ++ "=" ++ tHexR c.value
+
+mutual
+partial def tStmt : Statement → String
+  | .block h body =>
+    "B@" ++ tPos h.src.start h.src.end_ ++ "{" ++ tRef h.type ++ ";[" ++
+      tJoin (h.tags.map tTag) ++ "];[" ++ tJoin (h.qualifiers.map tTag) ++ "];" ++
+      (match h.description with
+       | none => "-"
+       | some d => "d@" ++ tSpan d.span ++ tDescBody d) ++ ";" ++
+      (if h.isOpen then "1" else "0") ++ ";" ++ tCmt h.src.comment ++ ";" ++ tBody body ++ "}"
+  | .assign a =>
+    "A@" ++ tPos a.src.start a.src.end_ ++ "{" ++ tRef a.key ++ ";" ++
+      (if a.append then "+=" else "=") ++ ";" ++ tValue a.value ++ ";" ++ tCmt a.src.comment ++ "}"
+  | .desc d => "D@" ++ tSpan d.span ++ tDescBody d
+partial def tBody (b : List Statement) : String := "[" ++ tJoin (b.map tStmt) ++ "]"
+end
+
+/-- equality of message trees, touched flags included -/
+partial def nodeBeq : Node → Node → Bool
+  | .absent, .absent => true
+  | .scalar a, .scalar b => a == b
+  | .msg t1 p1, .msg t2 p2 => t1 == t2 && p1.length == p2.length && (p1.zip p2).all fun (a, b) => nodeBeq a b
+  | .list a, .list b => a.length == b.length && (a.zip b).all fun (x, y) => nodeBeq x y
+  | .map k1 v1, .map k2 v2 => k1 == k2 && v1.length == v2.length && (v1.zip v2).all fun (x, y) => nodeBeq x y
+  | _, _ => false
+
+def opPrint (cls : Cls) (debug exact : Bool) (filename source : List Nat) (ast : J5V.Compile.SrcFile) : String :=
+  if !supported ast then "unsupported"
+  else
+    let want := toBcl ast
+    let tree :=
+      match parseFile cls (decodeRunes source) true with
+      | .tree f => if tBody (eraseStmts f.body) == tBody want then "1" else "0"
+      | _ => "0"
+    let msg := toMsg filename ast
+    let m := dump j5Env msg
+    let (w, same) :=
+      match walkSchema j5Env want (stub j5Env filename) with
+      | .ok t =>
+        let d := dump j5Env t
+        ("ok:" ++ d, if d == m && (!exact || nodeBeq t msg) then "1" else "0")
+      | .err e => ("err:" ++ posStr e.pos ++ (if debug then ":" ++ e.what.replace " " "_" else ""), "0")
+      | .panic why => ("panic" ++ (if debug then ":" ++ why.replace " " "_" else ""), "0")
+    "tree=" ++ tree ++ " walk=" ++ w ++ " msg=" ++ m ++ " same=" ++ same
+
+/-- `print HEX HEX SEXP…`: the s-expression is the rest of the line -/
+def stepPrint (cls : Cls) (debug exact : Bool) (rest : String) : String :=
+  match rest.splitOn " " with
+  | hn :: hs :: sx =>
+    match fromHex hn, fromHex hs, J5V.Compile.parseLine ("print " ++ " ".intercalate sx) with
+    | some name, some src, some (_, [sexp]) =>
+      match J5V.Compile.dFile [] sexp with
+      | some ast => opPrint cls debug exact name src ast
+      | none => "bad-op"
+    | _, _, _ => "bad-op"
   | _ => "bad-op"
+
+def step (cls : Cls) (debug exact : Bool) (line : String) : String :=
+  let l := line.trimAscii.toString
+  if l.startsWith "print " then stepPrint cls debug exact (l.drop 6).toString
+  else
+    match l.splitOn " " with
+    | ["walk", hn, hs] =>
+      match fromHex hn, fromHex hs with
+      | some name, some src => opWalk cls debug name src
+      | _, _ => "bad-op"
+    | _ => "bad-op"
 
 partial def loop (f : String → String) (h : IO.FS.Stream) (out : IO.FS.Stream) : IO Unit := do
   let line ← h.getLine
@@ -48,7 +150,8 @@ partial def loop (f : String → String) (h : IO.FS.Stream) (out : IO.FS.Stream)
 def main : IO Unit := do
   let out ← IO.getStdout
   let debug := (← IO.getEnv "WALKER_DEBUG").isSome
+  let exact := (← IO.getEnv "WALKER_PRINT_DUMPONLY").isNone
   match (← loadTbl) with
   | none => loop (fun _ => "bad-table") (← IO.getStdin) out
-  | some t => loop (step t.cls debug) (← IO.getStdin) out
+  | some t => loop (step t.cls debug exact) (← IO.getStdin) out
   out.flush
